@@ -184,8 +184,30 @@ func runCell(c Cell) (*ev.Failure, bool) {
 	return plaintext(c)
 }
 
+// leafFor returns the server certificate of a cell. Two kinds are minted when the cell runs: one
+// that becomes valid 20 s from now and one that expired 20 s ago (a validity check with a tolerance
+// accepts them; the statement has none). judged reports afterwards whether the cell ran clear of the
+// instant at which the first of them becomes valid.
+func leafFor(name string) (leaf glue.Leaf, judged func() bool) {
+	lo := []net.IP{net.IPv4(127, 0, 0, 1), net.IPv6loopback}
+	now := time.Now()
+	switch name {
+	case "valid_in_20s":
+		return caGood.Issue(glue.LeafSpec{CN: "collector", DNS: []string{"localhost"}, IPs: lo, NotBefore: now.Add(20 * time.Second), NotAfter: now.Add(48 * time.Hour)}),
+			func() bool { return time.Since(now) < 12*time.Second }
+	case "expired_20s_ago":
+		return caGood.Issue(glue.LeafSpec{CN: "collector", DNS: []string{"localhost"}, IPs: lo, NotBefore: now.Add(-48 * time.Hour), NotAfter: now.Add(-20 * time.Second)}), func() bool { return true }
+	}
+	return serverCerts[name], func() bool { return true }
+}
+
 func exporterVsTLSServer(c Cell) (*ev.Failure, bool) {
-	return exporterVsTLS(serverCerts[c.ServerCert], versions[c.MaxVersion], snValue(c.ServerName), c.AddrHost, expectAccept(c), c)
+	leaf, judged := leafFor(c.ServerCert)
+	f, seen := exporterVsTLS(leaf, versions[c.MaxVersion], snValue(c.ServerName), c.AddrHost, expectAccept(c), c)
+	if !judged() {
+		return nil, false
+	}
+	return f, seen
 }
 
 // addrOf: the collector address handed to the exporter: the listener's IP literal, or (host != "")
@@ -272,7 +294,12 @@ func exporterVsTLS(leaf glue.Leaf, maxVersion uint16, serverName, addrHost strin
 }
 
 func exporterVsDTLSServer(c Cell) (*ev.Failure, bool) {
-	return exporterVsDTLS(serverCerts[c.ServerCert], snValue(c.ServerName), c.AddrHost, expectAccept(c), c)
+	leaf, judged := leafFor(c.ServerCert)
+	f, seen := exporterVsDTLS(leaf, snValue(c.ServerName), c.AddrHost, expectAccept(c), c)
+	if !judged() {
+		return nil, false
+	}
+	return f, seen
 }
 
 func exporterVsDTLS(leaf glue.Leaf, serverName, addrHost string, want bool, c any) (*ev.Failure, bool) {
@@ -680,7 +707,11 @@ func sequence(c Cell) (*ev.Failure, bool) {
 	// exporter; any repetition in which the second exporter completes a session is a failure.
 	for i, life := range []time.Duration{30 * time.Millisecond, 120 * time.Millisecond, 400 * time.Millisecond, 900 * time.Millisecond} {
 		goodDomain, badDomain := uint32(999+i), uint32(4242+i)
-		good, err := mk(goodDomain, caGood.CertPEM, clientCerts["trusted"])
+		goodClient := clientCerts["trusted"]
+		if c.Plain == "second_exporter_other_ca_no_client_certs" {
+			goodClient = nil // neither exporter has a key pair of its own: the other shape of the client configuration
+		}
+		good, err := mk(goodDomain, caGood.CertPEM, goodClient)
 		if err != nil {
 			return ev.Failf("harness: the correctly configured exporter cannot connect: %v", err), false
 		}
@@ -695,6 +726,8 @@ func sequence(c Cell) (*ev.Failure, bool) {
 		switch c.Plain {
 		case "second_exporter_other_ca":
 			bad, err = mk(badDomain, caOther.CertPEM, clientCerts["trusted"])
+		case "second_exporter_other_ca_no_client_certs":
+			bad, err = mk(badDomain, caOther.CertPEM, nil)
 		case "second_exporter_without_client_cert":
 			bad, err = mk(badDomain, caGood.CertPEM, nil)
 		}
@@ -702,7 +735,7 @@ func sequence(c Cell) (*ev.Failure, bool) {
 			sendTemplate(bad)
 			got := col.waitDelivered(badDomain, 700*time.Millisecond)
 			bad.CloseConnToCollector()
-			if c.Plain == "second_exporter_other_ca" {
+			if c.Plain == "second_exporter_other_ca" || c.Plain == "second_exporter_other_ca_no_client_certs" {
 				return ev.Failf("after a correctly configured exporter had completed a session, a second exporter in the same process whose CA does not cover the collector's certificate completed one too (message delivered: %v)", got), true
 			}
 			if got {
@@ -872,6 +905,13 @@ func cells() []Cell {
 			}
 		}
 	}
+	// certificates at 20 s from either end of their validity period
+	for _, sc := range []string{"valid_in_20s", "expired_20s_ago"} {
+		for _, sn := range []string{"matching", "unset"} {
+			out = append(out, Cell{Dir: "exporter", Proto: "tls", ServerCert: sc, ServerName: sn, MaxVersion: "1.3"}, Cell{Dir: "exporter", Proto: "tls", ServerCert: sc, ServerName: sn, MaxVersion: "1.2"},
+				Cell{Dir: "exporter", Proto: "dtls", ServerCert: sc, ServerName: sn})
+		}
+	}
 	for _, cc := range []string{"none", "trusted", "other_ca", "expired"} {
 		for _, ca := range []bool{true, false} {
 			for _, v := range []string{"1.1", "1.2", "1.3"} {
@@ -885,7 +925,7 @@ func cells() []Cell {
 		}
 	}
 	for _, sn := range []string{"matching", "unset"} {
-		out = append(out, Cell{Dir: "sequence", Proto: "tls", ServerName: sn, Plain: "second_exporter_other_ca"},
+		out = append(out, Cell{Dir: "sequence", Proto: "tls", ServerName: sn, Plain: "second_exporter_other_ca"}, Cell{Dir: "sequence", Proto: "tls", ServerName: sn, Plain: "second_exporter_other_ca_no_client_certs"},
 			Cell{Dir: "sequence", Proto: "tls", ServerName: sn, ClientCA: true, Plain: "second_exporter_without_client_cert"})
 	}
 	out = append(out,
